@@ -74,6 +74,24 @@ def to_real(t):
     return z3.ToReal(t) if t.sort() == I else t
 
 
+ROUNDING = {"on": True}
+_2_53 = 2 ** 53
+
+
+def to_f64(t):
+    """an integer *converted* to a double (explicit conversion: declared float type, float array element, float()/np.float64()).
+    Exact up to 2**53 in magnitude; beyond that the result is some double f64(t) (uninterpreted: which double is decided by
+    the concrete replay).  Implicit lifting inside arithmetic stays exact (floats are reals there, stated assumption)."""
+    if t.sort() != I:
+        return t
+    if not ROUNDING["on"]:
+        return z3.ToReal(t)
+    ts = z3.simplify(t)
+    if z3.is_int_value(ts):
+        return z3.ToReal(t) if abs(ts.as_long()) <= _2_53 else z3.RealVal(int(float(ts.as_long())))
+    return z3.If(z3.And(t >= -_2_53, t <= _2_53), z3.ToReal(t), uf("f64", I, R)(t))
+
+
 def rank(kind):
     return {"bool": 0, "int": 0, "float": 1, "complex": 2}[kind]
 
@@ -127,7 +145,7 @@ def recip(a):
     if a.kind == "complex":
         d = a.re * a.re + a.im * a.im
         return V("complex", a.re / d, -a.im / d)
-    return V("float", z3.RealVal(1) / to_real(a.re))
+    return V("float", z3.RealVal(1) / (to_f64(a.re) if a.re.sort() == I else a.re))     # an integer divisor is converted first
 
 
 def div(a, b):
